@@ -114,6 +114,60 @@ theorem readRec_total (d : String) (s : Stream) : stotal (readRec d s).2 ≤ sto
   | none => simp [stotal]
   | some p => obtain ⟨t, s'⟩ := p; have := nextWord_total _ _ _ _ h; simp [stotal] at *; omega
 
+/-- the body of a Db (what follows the type tag), from any reading position -/
+theorem deserDbBody_consistent (s0 : Stream) (d : DbFile) (h : deserDbBody s0 = some d) :
+    Consistent d ∧ d.ncol * d.nech + 2 * d.ncol ≤ stotal s0 ∨ (Consistent d ∧ d.ncol = 0) := by
+  unfold deserDbBody at h
+  have t1 := readRec_total "0" s0
+  have t2 := readRec_total "0" (readRec "0" s0).2
+  generalize (readRec "0" s0) = r1 at *
+  obtain ⟨ncolT, s1⟩ := r1
+  simp only at h t1 t2
+  generalize (readRec "0" s1) = r2 at *
+  obtain ⟨nechT, s2⟩ := r2
+  simp only at h t2
+  cases hn : parseCInt? ncolT with
+  | none => simp [hn] at h
+  | some ncolI =>
+    cases he : parseCInt? nechT with
+    | none => simp [hn, he] at h
+    | some nechI =>
+      simp only [hn, he] at h
+      split at h
+      · simp at h
+      · by_cases hz : ncolI.toNat > 0
+        · simp only [hz, if_true] at h
+          cases hv1 : readVec ncolI.toNat s2 with
+          | none => simp [hv1] at h
+          | some q1 =>
+            obtain ⟨locs, s3⟩ := q1
+            simp only [hv1] at h
+            cases hv2 : readVec ncolI.toNat s3 with
+            | none => simp [hv2] at h
+            | some q2 =>
+              obtain ⟨names, s4⟩ := q2
+              simp only [hv2] at h
+              have hne : ¬ ncolI.toNat = 0 := by omega
+              simp only [hne, if_false] at h
+              cases hr : readRows ncolI.toNat nechI.toNat s4 with
+              | none => simp [hr] at h
+              | some q3 =>
+                obtain ⟨rows, s5⟩ := q3
+                simp [hr] at h; subst h
+                have a1 := readVec_spec _ _ _ _ hv1
+                have a2 := readVec_spec _ _ _ _ hv2
+                have a3 := readRows_spec _ _ _ _ _ hr
+                left
+                refine ⟨⟨a1.1, a2.1, by intro e; simp at e; omega, fun _ => a3.1, a3.2.1⟩, ?_⟩
+                have : ncolI.toNat * nechI.toNat = nechI.toNat * ncolI.toNat := Nat.mul_comm _ _
+                show ncolI.toNat * nechI.toNat + 2 * ncolI.toNat ≤ stotal s0
+                omega
+        · simp only [hz, if_false] at h
+          have hne : ncolI.toNat = 0 := by omega
+          simp [hne] at h; subst h
+          right
+          exact ⟨⟨rfl, rfl, fun _ => rfl, by intro h; simp at h, by intro r hr; simp at hr⟩, rfl⟩
+
 /-- **Every accepted file gives a consistent table no larger than the file.**  (all inputs) -/
 theorem deserDb_consistent (file : List Line) (d : DbFile) (h : deserDb file = some d) :
     Consistent d ∧ d.ncol * d.nech + 2 * d.ncol ≤ total file ∨ (Consistent d ∧ d.ncol = 0) := by
@@ -130,55 +184,44 @@ theorem deserDb_consistent (file : List Line) (d : DbFile) (h : deserDb file = s
       split at h
       · simp at h
       · have t0 := nextWord_total _ _ _ _ h0
-        have t1 := readRec_total "0" s0
-        have t2 := readRec_total "0" (readRec "0" s0).2
-        generalize (readRec "0" s0) = r1 at *
-        obtain ⟨ncolT, s1⟩ := r1
-        simp only at h t1 t2
-        generalize (readRec "0" s1) = r2 at *
-        obtain ⟨nechT, s2⟩ := r2
-        simp only at h t2
-        cases hn : parseCInt? ncolT with
+        rcases deserDbBody_consistent s0 d h with hb | hb
+        · left; refine ⟨hb.1, ?_⟩; simp only [total_cons]; omega
+        · right; exact hb
+
+/-- the same for a grid file: the table part of every accepted DbGrid file is consistent -/
+theorem deserGrid_consistent (file : List Line) (g : GridFile) (h : deserGrid file = some g) :
+    Consistent g.db := by
+  unfold deserGrid at h
+  cases file with
+  | nil => simp at h
+  | cons first rest =>
+    simp only at h
+    cases h0 : nextWord first rest with
+    | none => simp [h0] at h
+    | some p0 =>
+      obtain ⟨tag, s0⟩ := p0
+      simp only [h0] at h
+      split at h
+      · simp at h
+      · generalize (readRec "0" s0) = r1 at h
+        obtain ⟨ndimT, s1⟩ := r1
+        simp only at h
+        cases hn : parseCInt? ndimT with
         | none => simp [hn] at h
-        | some ncolI =>
-          cases he : parseCInt? nechT with
-          | none => simp [hn, he] at h
-          | some nechI =>
-            simp only [hn, he] at h
+        | some ndimI =>
+          simp only [hn] at h
+          split at h
+          · simp at h
+          · generalize (readDims ndimI.toNat s1) = r2 at h
+            obtain ⟨dims, s2⟩ := r2
+            simp only at h
             split at h
             · simp at h
-            · by_cases hz : ncolI.toNat > 0
-              · simp only [hz, if_true] at h
-                cases hv1 : readVec ncolI.toNat s2 with
-                | none => simp [hv1] at h
-                | some q1 =>
-                  obtain ⟨locs, s3⟩ := q1
-                  simp only [hv1] at h
-                  cases hv2 : readVec ncolI.toNat s3 with
-                  | none => simp [hv2] at h
-                  | some q2 =>
-                    obtain ⟨names, s4⟩ := q2
-                    simp only [hv2] at h
-                    have hne : ¬ ncolI.toNat = 0 := by omega
-                    simp only [hne, if_false] at h
-                    cases hr : readRows ncolI.toNat nechI.toNat s4 with
-                    | none => simp [hr] at h
-                    | some q3 =>
-                      obtain ⟨rows, s5⟩ := q3
-                      simp [hr] at h; subst h
-                      have a1 := readVec_spec _ _ _ _ hv1
-                      have a2 := readVec_spec _ _ _ _ hv2
-                      have a3 := readRows_spec _ _ _ _ _ hr
-                      left
-                      refine ⟨⟨a1.1, a2.1, by intro e; simp at e; omega, fun _ => a3.1, a3.2.1⟩, ?_⟩
-                      simp only [total_cons]
-                      have : ncolI.toNat * nechI.toNat = nechI.toNat * ncolI.toNat := Nat.mul_comm _ _
-                      omega
-              · simp only [hz, if_false] at h
-                have hne : ncolI.toNat = 0 := by omega
-                simp [hne] at h; subst h
-                right
-                exact ⟨⟨rfl, rfl, fun _ => rfl, by intro h; simp at h, by intro r hr; simp at hr⟩, rfl⟩
+            · cases hb : deserDbBody s2 with
+              | none => simp [hb] at h
+              | some db =>
+                simp [hb] at h; subst h
+                rcases deserDbBody_consistent s2 db hb with hc | hc <;> exact hc.1
 
 /-- interrupted write: every prefix (cut at any line, and inside any line at any token) of any
 file is either rejected or gives a consistent table -/
